@@ -13,7 +13,25 @@ import (
 // H_C03_literals_deterministic: every obfuscator emits the same block when
 // run twice on the same data with the same seeded draws.
 func H_C03_literals_deterministic() {
+	globals, extDraws, keyTarget := 0, 0, false
 	symx.DrawPolicy(func(method string, n int) int {
+		if len(method) > 7 && method[:7] == "global." {
+			// draws from the process-global source are the defect this harness looks for;
+			// a handful per run is enough to exhibit it (and bounds retry loops built on them)
+			globals++
+			if globals > 4 {
+				return -1
+			}
+			return 0
+		}
+		if method == "Intn" && n == maxExtKeyCount-minExtKeyCount && keyTarget {
+			// randExtKeys: the number of keys is fixed to its minimum (2), their types stay free
+			extDraws++
+			if extDraws == 1 {
+				return 1
+			}
+			return 0
+		}
 		if method == "Intn" && n == maxByteSliceExtKeyOps-minByteSliceExtKeyOps {
 			return 1 // 2 key operations per slice
 		}
@@ -30,8 +48,10 @@ func H_C03_literals_deterministic() {
 	}
 	n := 1 + symx.Choose(tier(2, 3))
 	data := symx.Bytes("data", n)
+	keyTarget = target == len(Obfuscators)+2
 	run := func() string {
 		stubByteLitCalls = 0
+		extDraws = 0
 		keys := []*externalKey{
 			{name: "garbleExternalKey0", typ: "uint8", value: 0x5a, bits: 8},
 			{name: "garbleExternalKey1", typ: "uint64", value: 0x1122334455667788, bits: 64},
